@@ -368,7 +368,13 @@ fn case(case_no: usize, rng: &mut Rng, rep: &mut Report, case_file: &std::path::
                 pa.sort();
                 pb.sort();
                 if pa != pb {
-                    rep.violate("C12|response|valid-query-answered-differently-in-hostile-batch", format!("X7 alone {} vs in the batch {}", pa.join(";").chars().take(300).collect::<String>(), pb.join(";").chars().take(300).collect::<String>()), replay);
+                    rep.violate("C12|response|valid-query-answered-differently-in-hostile-batch", format!("X7 alone {} vs in the batch {}", pa.join(";").chars().take(300).collect::<String>(), pb.join(";").chars().take(300).collect::<String>()), || {
+                        let mut r = desc.clone();
+                        r["alone"] = json!(pa);
+                        r["in_batch"] = json!(pb);
+                        r["query"] = it.0.clone();
+                        r
+                    });
                     break;
                 }
                 rep.count("valid_queries_compared_with_alone", 1);
